@@ -868,6 +868,13 @@ class Generator:
             choice = rng.choice(options)
             if choice == "len":
                 return self.len_cmp(e)
+            if choice == "eq" and not simple and rng.random() < 0.3:
+                # an interpolated string with literal curly brackets (not a pattern)
+                m.feature("fstring-in-invariant")
+                template = rng.choice([
+                    'f"{{{{{e}}}}}"', 'f"${{{{{e}}}}}"', 'f"x{{{{y}}}}{{{e}}}"', 'f"{{{e}}}-{{{e}}}"', 'f"{{{{}}}}{{{e}}}"',
+                ]).format(e=e)
+                return f"{e} {rng.choice(['==', '!='])} {template}"
             if choice == "eq":
                 m.feature("str-eq")
                 return f"{e} {rng.choice(['==', '!='])} {self.str_literal(rng.choice(['ok', '', 'x y', 'bad']))}"
@@ -892,9 +899,20 @@ class Generator:
             if sets and r < 0.3 and not simple:
                 m.feature("in-set-int")
                 return f"{e} in {rng.choice(sets).name}"
-            if r < 0.45 and t.kind == "prim":
+            if r < 0.37 and t.kind == "prim":
                 m.feature("arith")
                 return f"{e} {rng.choice(['+', '-'])} {rng.randint(1, 3)} {op} {k}"
+            if r < 0.45 and t.kind == "prim":
+                # nested arithmetic: the grouping matters for subtraction
+                m.feature("arith-nested")
+                inner = f"({e} {rng.choice(['+', '-'])} {rng.randint(1, 4)})"
+                form = rng.choice([
+                    "{k2} - {inner}", "{e} - {inner}", "{inner} - {inner2}", "{e} + {inner}",
+                    "{k2} - ({k3} - {e})",
+                ])
+                expr = form.format(k2=rng.randint(0, 9), k3=rng.randint(0, 9), e=e, inner=inner,
+                                   inner2=f"({rng.randint(0, 5)} - {e})")
+                return f"{expr} {op} {k}"
             if r < 0.7:
                 m.feature("cmp-const-left")
                 return f"{k} {op} {e}"
